@@ -516,7 +516,22 @@ def run_driver(case):
                 maxwell_boltzmann_distribution(context)
                 ke_box["ke"] = float(context.atoms.get_kinetic_energy())
 
-            hm = HamiltonianDisplacementMove(distribution=dist, operation=Verlet(dt=2.0, max_steps=3))
+            class StartVerlet(Verlet):
+                def integrate(self, context):
+                    ke_box["ke_start"] = float(context.atoms.get_kinetic_energy())
+                    super().integrate(context)
+
+            hm = HamiltonianDisplacementMove(distribution=dist, operation=StartVerlet(dt=2.0, max_steps=3))
+            veto = {"left": 0}
+
+            def check(*_a, **_k):
+                if veto["left"] > 0:
+                    veto["left"] -= 1
+                    return False
+                return True
+
+            hm.check_move = check
+            ke_box["veto"] = veto
             moves = [(hm, spy(K.HamiltonianCanonicalCriteria))] * 2
         elif driver == "Isobaric":
             mc = isobaric.Isobaric(atoms, temperature=model["temperature"], pressure=model["pressure"], **kw)
@@ -550,6 +565,9 @@ def run_driver(case):
             setters_seen.append(name)
             continue
         which = op[1]
+        if "veto" in ke_box:
+            # every second Hamiltonian trial has its first attempt refused by the user's geometric check
+            ke_box["veto"]["left"] = 1 if (len(log) % 2 == 1) else 0
         for i in range(len(moves)):
             mc.moves[f"m{i}"].probability = 1.0 if i == which else 0.0
         before = (atoms.positions.copy(), atoms.cell.array.copy(), atoms.numbers.copy())
@@ -573,7 +591,8 @@ def run_driver(case):
         dE = e_new - e_old
         crit_name = type(mc.moves[f"m{which}"].criteria).__name__
         if "Hamiltonian" in crit_name:
-            logA = -((e_new + rec["ke"]) - e_old - ke_box["ke"]) / kT
+            # total-energy change of the trajectory that produced the trial: its start is the last integrate() call
+            logA = -((e_new + rec["ke"]) - e_old - ke_box["ke_start"]) / kT
         elif "Isobaric" in crit_name or "Isotension" in crit_name:
             V0, V = abs(np.linalg.det(before[1])), abs(np.linalg.det(rec["cell"]))
             logA = -(dE + model["pressure"] * (V - V0)) / kT + (len(rec["numbers"]) + 1) * math.log(V / V0)
